@@ -290,6 +290,12 @@ class ChildWorld:
             _os.makedirs(_os.path.dirname(pth), exist_ok=True)
             with open(pth, "w", encoding="utf-8") as f:
                 _json.dump(op[3], f)
+        elif name == "fs_poke_state":
+            # the caller changes the state of its object in place (no setter involved)
+            kind, o = objs[op[1]]
+            sysobj = o if kind == "system" else o.system
+            sysobj.state.value[int(op[2]) % len(sysobj.state.value)] += float(op[3])
+            ev["phys"] = P.phys(o)
         elif name == "fs_touch_units":
             # the caller edits, in place, the units system of an object it got from a reader (its own object, its own business)
             kind, o = objs[op[1]]
@@ -458,6 +464,15 @@ class ChildWorld:
             ev["seed"] = int(tr.script.rng_seed)
             ev["nsamples"] = int(tr.nsamples())
             try:
+                if tr.system.state_size() <= 400:
+                    # what the trajectory says it was computed from (stored system and script)
+                    import hashlib
+                    import json as _json2
+                    from . import phys as _P
+                    ev["stored"] = hashlib.sha256(_json2.dumps(_P.phys_script(tr.script), sort_keys=True, default=str).encode()).hexdigest()[:16]
+            except Exception as e_:
+                ev["stored_exc"] = repr(e_)
+            try:
                 # what the accessors say about the same array: system-wide trajectory of the first species, local
                 # trajectory of the last species in the last cell (values and units)
                 g_ = tr.get_trajectory(0, merge=True)
@@ -530,7 +545,14 @@ class ChildWorld:
             self.clock.set_plan(op[1])
             script = self.get_script(sidx)
             self.global_size = script.system.state_size()
-            tr = self.st.simulate_script(script, eng)
+            if isinstance(op[1], dict) and op[1].get("progress"):
+                # with the progress line switched on (printed to a sink)
+                import io
+                import contextlib
+                with contextlib.redirect_stdout(io.StringIO()):
+                    tr = self.st.simulate_script(script, eng, print_progress=True)
+            else:
+                tr = self.st.simulate_script(script, eng)
             ev["t"] = tr.t.value.tobytes()
             ev["data"] = tr.data.value.tobytes()
             ev["t_units"] = str(tr.t.units)
@@ -656,7 +678,10 @@ class ChildWorld:
                 if isinstance(v, dict):
                     return {k: _sc(x, f) for k, x in v.items()}
                 return self.st.UnitValue(float(v.value) * f, v.units)
-            if op[2] == "kf":
+            if len(op) > 4 and op[4] == "method":
+                # both constants through Reaction.set_k(kf, kr)
+                r.set_k(_sc(r.kf, float(op[3])) if op[2] == "kf" else r.kf, _sc(r.kr, float(op[3])) if op[2] == "kr" else r.kr)
+            elif op[2] == "kf":
                 r.kf = _sc(r.kf, float(op[3]))
             else:
                 r.kr = _sc(r.kr, float(op[3]))
@@ -675,6 +700,17 @@ class ChildWorld:
                 other = system.copy()
                 other.set_chemostat(int(op[2]), int(op[3]), op[4])
                 self.kept["chem_copy"] = other
+            elif act == "assign_set":
+                # another system is given this system's map (the array itself), then edited: this one keeps its own
+                other = system.copy()
+                other.chemostats = system.chemostats
+                other.set_chemostat(int(op[2]), int(op[3]), op[4])
+                self.kept["chem_copy"] = other
+            elif act == "set_after_script":
+                # the script object was built from this system before; the system is edited afterwards: the script holds
+                # its own copy (which is what the next set-up of that script runs on)
+                self.get_script(sidx)
+                system.set_chemostat(int(op[2]), int(op[3]), op[4])
             else:
                 raise ValueError(act)
             ev["chem"] = [int(c) for c in system.chemostats]
@@ -746,7 +782,9 @@ class ChildWorld:
                         sa.density = sb.density
                 elif ch[0] == "reaction":
                     ra, rb = a_sys.network.reactions[ch[1]], b_sys.network.reactions[ch[1]]
-                    if ch[2] == "kf":
+                    if (ch[1] + len(ch[2])) % 2 == 0:
+                        ra.set_k(rb.kf if ch[2] == "kf" else ra.kf, rb.kr if ch[2] == "kr" else ra.kr)
+                    elif ch[2] == "kf":
                         ra.kf = rb.kf
                     else:
                         ra.kr = rb.kr
